@@ -159,14 +159,24 @@ func WithMaxAttempts(ctx context.Context, opts Options, n int, fn func() error) 
 
 	opts.MaxRetries = n - 1
 	var err error
+	attempts := 0
 	for r := StartWithCtx(ctx, opts); r.Next(); {
 		err = fn()
 		if err == nil {
 			return nil
 		}
+		// MaxRetries == 0 means "no limit": count the attempts here so
+		// that n == 1 really means a single attempt.
+		if attempts++; attempts >= n {
+			break
+		}
 	}
 	if err == nil {
-		err = errors.Wrap(ctx.Err(), "did not run function")
+		if ctx.Err() != nil {
+			err = errors.Wrap(ctx.Err(), "did not run function")
+		} else {
+			err = errors.New("did not run function: closer closed")
+		}
 	}
 	return err
 }
